@@ -10,8 +10,9 @@ ID = "C13"
 PROOF_FILE = "Properties/C13.v"
 THEOREMS = ["C13_latters", "C13_formers", "C13_index_range", "C13_index_inj", "C13_index_surj", "C13_dna_to_number",
             "C13_pred_succ", "C13_column", "C13_complete", "C13_legal_complete", "C13_legal_valid_graph",
-            "C13_legal_induced"]
-CONE = ["Proofs/KmerProofs.v", "Proofs/GraphProofs.v", "Kmer.v", "Convert.v", "Graph.v", "Spec.v", "Py.v"]
+            "C13_legal_induced", "C13_legal_coding_graph", "C13_legal_from_matrix", "C13_legal_from_latter_map",
+            "C13_legal_after_arc_removal"]
+CONE = ["Proofs/KmerProofs.v", "Proofs/GraphProofs.v", "Proofs/LegalProofs.v", "Proofs/GenerateProofs.v", "Proofs/ReprProofs.v", "Proofs/ScoreProofs.v", "Kmer.v", "Convert.v", "Graph.v", "Spec.v", "Py.v"]
 MODEL_FUNCTIONS = ["obtain_latters", "obtain_formers", "get_complete_accessor", "number_to_dna", "dna_to_number"]
 RULE = ("every vertex of every order k <= 5 (thorough: k <= 7) and 2000 sampled vertices per k up to 12, for "
         "obtain_latters / obtain_formers / number_to_dna / dna_to_number; get_complete_accessor for k <= 5 (6); "
